@@ -556,6 +556,16 @@ func check(id, tier string) int {
 			if b.DeadlineS > 0 {
 				opts.Deadline = time.Now().Add(time.Duration(b.DeadlineS) * time.Second)
 			}
+			// a violation ends the exploration of its harness early (not for the
+			// labels a demonstrator of a recorded finding is expected to produce)
+			opts.StopGraceRuns = 20000
+			if v := os.Getenv("GOSYM_STOPGRACE"); v != "" {
+				opts.StopGraceRuns, _ = strconv.Atoi(v)
+			}
+			opts.ExpectedLabels = map[string]bool{"vacuity": true}
+			for _, l := range h.Demonstrates {
+				opts.ExpectedLabels[l] = true
+			}
 			rep, err := prog.Explore(opts)
 			if err != nil {
 				fmt.Printf("INCONCLUSIVE property=%s harness=%s: %v\n", id, h.Entry, err)
@@ -629,8 +639,11 @@ func check(id, tier string) int {
 				fmt.Printf("INCONCLUSIVE property=%s harness=%s %d verdict queries unknown, %d solver errors\n", id, h.Entry, rep.InconclVerd, rep.Queries.Errors)
 				inconclusive = append(inconclusive, h.Entry+" solver")
 			}
+			if rep.StoppedEarly {
+				fmt.Printf("harness %s/%s: exploration ended early, %d runs after its first violation\n", u.Name, h.Entry, opts.StopGraceRuns)
+			}
 			for _, l := range h.Reach {
-				if !rep.Reached[l] {
+				if !rep.Reached[l] && !rep.StoppedEarly {
 					fmt.Printf("INCONCLUSIVE property=%s harness=%s reach marker %q never hit (vacuity)\n", id, h.Entry, l)
 					inconclusive = append(inconclusive, h.Entry+" vacuity "+l)
 				}
